@@ -874,14 +874,16 @@ impl Indexable for ast::InnerValue {
 }
 
 fn selected_bit_count(range_suffix: &ast::RangeSuffix) -> Option<usize> {
-    let mut count = 0;
+    let mut count: usize = 0;
     for piece in range_suffix.range_list()?.pieces() {
         let start = piece.start()?.value()?;
-        count += match piece.end().and_then(|end| end.value()) {
+        let selected = match piece.end().and_then(|end| end.value()) {
             // `7-4` is lexed as `7` and `-4`
-            Some(end) => (start.unsigned_abs().abs_diff(end.unsigned_abs()) + 1) as usize,
+            Some(end) => start.unsigned_abs().abs_diff(end.unsigned_abs()).saturating_add(1),
             None => 1,
         };
+        // nonsensical ranges (`0-9223372036854775807`, twice) must not overflow the sum
+        count = count.saturating_add(usize::try_from(selected).unwrap_or(usize::MAX));
     }
     Some(count)
 }
